@@ -230,7 +230,9 @@ fn generate(seed: u64, tier: Tier, em: &mut Emitter) {
     }
 
     // 3. seeded random single calls over the whole u64 range
-    let mut rng = SplitMix64::new(seed ^ 0xC13);
+    // SplitMix64::new(s) and new(s + 1) yield the same stream shifted by one position, so the
+    // seed is scrambled first (one output of the generator) to decorrelate neighbouring seeds
+    let mut rng = SplitMix64::new(SplitMix64::new(seed).next_u64() ^ 0xC13);
     let n = if thorough { 40_000 } else { 3_000 };
     for _ in 0..n {
         let size = if rng.chance(1, 40) { 0 } else { interesting_u64(&mut rng).max(1) };
